@@ -162,8 +162,31 @@ Definition strided_ctor (t : ity) (e : extents) (s : list Z) : strided :=
 Definition strided_default (t : ity) (p : pattern) : strided :=
   {| st_ext := ext_default p;
      st_strides := map (fun r => cast t (rev_prod t (ext_default p) r)) (seq 0 (length p)) |}.
+(* conversions between the layouts (defined by fixes 489f446, 54b4c1a, 4b7dc8a):
+   layout_stride::mapping(StridedLayoutMapping const& other): _extents(other.extents()) -- the converting
+   extents constructor -- and _strides[r] = static_cast<index_type>(other.stride(r));
+   layout_left/right::mapping(layout_stride::mapping<OtherExtents> const& other): _extents{other.extents()} *)
+Definition strided_of_layout (l : layout) (t : ity) (p : pattern) (t' : ity) (e' : extents) : strided :=
+  {| st_ext := ext_convert t p t' e'; st_strides := map (cast t) (lay_strides l t' e') |}.
+Definition layout_of_strided (t : ity) (p : pattern) (t' : ity) (m : strided) : extents :=
+  ext_convert t p t' (st_ext m).
 Definition strided_stride (m : strided) (r : nat) : res Z :=
   if (r <? rank (st_ext m))%nat then Ok (nth r (st_strides m) 0) else Contract.
+(* layout_stride::mapping::required_span_size() (defined by fix 2c4c8ad): 0 as soon as an extent is 0 (first
+   loop); otherwise span = 1, then span = static_cast<index_type>(span + (extent(r) - index_type(1)) * stride(r))
+   for every r -- each operation in the promoted type (unsigned wraps, signed overflow = None) *)
+Fixpoint strided_req_sum (t : ity) (xs ss : list Z) (span : Z) : option Z :=
+  match xs, ss with
+  | x :: xr, s :: sr =>
+      do a <- aop t (x - 1);
+      do b <- aop t (a * s);
+      do c <- aop t (span + b);
+      strided_req_sum t xr sr (cast t c)
+  | _, _ => Some span
+  end.
+Definition strided_required (t : ity) (m : strided) : option Z :=
+  let xs := extents_list t (st_ext m) in
+  if existsb (fun x => x =? 0) xs then Some 0 else strided_req_sum t xs (st_strides m) 1.
 Definition strided_map (t : ity) (m : strided) (idx : list Z) : option Z :=
   do s <- fold_terms t idx (st_strides m); Some (cast t s).
 
